@@ -841,8 +841,9 @@ class FuncBitRotateLeft(ValueFunc):
 
     def execute(self, args, environment, pos):
         a = args.getInt("a").value
-        n = args.getInt("n").value
-        return ValueInt((a << n) | (a >> (32 - n)))
+        n = args.getInt("n").value % 32
+        a = a & 0xFFFFFFFF
+        return ValueInt(((a << n) & 0xFFFFFFFF) | (a >> (32 - n)))
 
 
 class FuncBitRotateRight(ValueFunc):
@@ -865,8 +866,9 @@ class FuncBitRotateRight(ValueFunc):
 
     def execute(self, args, environment, pos):
         a = args.getInt("a").value
-        n = args.getInt("n").value
-        return ValueInt((a >> n) | (a << (32 - n)))
+        n = args.getInt("n").value % 32
+        a = a & 0xFFFFFFFF
+        return ValueInt((a >> n) | ((a << (32 - n)) & 0xFFFFFFFF))
 
 
 class FuncBitShiftLeft(ValueFunc):
@@ -890,7 +892,11 @@ class FuncBitShiftLeft(ValueFunc):
     def execute(self, args, environment, pos):
         a = args.getInt("a").value
         n = args.getInt("n").value
-        return ValueInt(a << n)
+        if n < 0:
+            raise CklRuntimeError(
+                ValueString("ERROR"), "Negative shift count", pos
+            )
+        return ValueInt((a << n) & 0xFFFFFFFF)
 
 
 class FuncBitShiftRight(ValueFunc):
@@ -914,6 +920,10 @@ class FuncBitShiftRight(ValueFunc):
     def execute(self, args, environment, pos):
         a = args.getInt("a").value
         n = args.getInt("n").value
+        if n < 0:
+            raise CklRuntimeError(
+                ValueString("ERROR"), "Negative shift count", pos
+            )
         return ValueInt(a >> n)
 
 
